@@ -304,6 +304,7 @@ def run(chk: core.Check):
     for ls in core.parallel(_record, seeds, {"maxobj": 14 if quick else 25, "runs": 8}):
         lines.extend(ls)
     rej = trace_validate(chk, lines)
+    core.canary(chk, lines, trace_validate, what="Trace_Visitor", skip=set(rej))
     chk.traces_accepted += len(lines) - len(rej)
     chk.evaluations += len(lines)
     for i in rej[:25]:
